@@ -35,9 +35,13 @@ Fixpoint kw_insert (p : key * kval) (d : kwargs) : kwargs :=
   end.
 Definition kw_sort (d : kwargs) : kwargs := fold_right kw_insert [] d.
 
+Definition match_eqb (a b : matchpol) : bool :=
+  match a, b with MExact, MExact | MPrefix, MPrefix | MWildcard, MWildcard => true | _, _ => false end.
+
 Definition wmsg_eqb (a b : wmsg) : bool :=
   match a, b with
-  | MSubscribe r t, MSubscribe r' t' => (r =? r') && (t =? t')
+  | MSubscribe r t m g, MSubscribe r' t' m' g' =>
+      (r =? r') && (t =? t') && opt_eqb match_eqb m m' && opt_eqb Bool.eqb g g'
   | MUnsubscribe r s, MUnsubscribe r' s' => (r =? r') && (s =? s')
   | _, _ => false
   end.
@@ -92,10 +96,24 @@ Definition sub_case_ok (c : sub_case) : bool :=
 (* shorthand constructors keep the generated case files small *)
 Definition Sig (fixed : nat) (va : bool) (kwo : list key) (vk : bool) : signature :=
   {| sg_fixed := fixed; sg_varargs := va; sg_kwonly := kwo; sg_varkw := vk |}.
-Definition H (obj : bool) (det : option key) (sg : signature) (chk : bool) (ann : option anntype) (b : behaviour) : handler :=
-  {| h_obj := obj; h_details := det; h_sig := sg; h_check := chk; h_ann := ann; h_beh := b |}.
+Definition HS (sg : signature) (chk : bool) (ann : option anntype) (b : behaviour) : hspec :=
+  {| hs_sig := sg; hs_check := chk; hs_ann := ann; hs_beh := b |}.
+Definition Opts (d : option bool) (da : option key) (m : option matchpol) (gr : option bool) : subopts :=
+  {| o_details := d; o_details_arg := da; o_match := m; o_get_retained := gr |}.
 Definition Ev (sub pub : N) (args : list Z) (kw : kwargs) (publisher topic : option N) (ret : option bool) : event :=
   {| e_sub := sub; e_pub := pub; e_args := args; e_kwargs := kw; e_publisher := publisher; e_topic := topic;
      e_retained := ret |}.
 Definition Det (owner sub pub : N) (publisher : option N) (topic : N) (ret : option bool) : kval :=
   KDet {| d_owner := owner; d_sub := sub; d_pub := pub; d_publisher := publisher; d_topic := topic; d_retained := ret |}.
+
+(* the modelled options normalisation against the real SubscribeOptions / Subscribe.marshal:
+   expected = None when the constructor raised AssertionError, else (details_arg, marshalled match, marshalled get_retained) *)
+Definition opts_case := (subopts * option (option key * option matchpol * option bool))%type.
+Definition opts_case_ok (c : opts_case) : bool :=
+  let '(o, expected) := c in
+  match expected with
+  | None => negb (opts_valid o)
+  | Some (da, m, gr) =>
+      opts_valid o && opt_eqb N.eqb (norm_details o) da && opt_eqb match_eqb (wire_match (Some o)) m
+      && opt_eqb Bool.eqb (wire_retained (Some o)) gr
+  end.
